@@ -1,7 +1,7 @@
 import QuillModel.Backend.UInvClosed
 /-!
 A second walk of the frontend of the U machine, generic in a per-context predicate `T j t` (indexed by the context id, so
-that one context can be exempted): `GI T s` = `UI s` and `T j (s.th j)` for every `j`. If `T` is closed under the
+that one context can be exempted): `GI T c s` = `UI s` and `T j (s.th j)` for every `j`. If `T` is closed under the
 context transformers the frontend uses (`TClosed`), `GI T` is closed under every frontend operation (`GI.frontU`) and
 under the hook-site injection runner. Used for the publication invariant of C09 and for "the failure counter of an
 unbounded context is never reset".
@@ -21,29 +21,30 @@ structure TClosed (u : UP) (T : Nat → Th → Prop) : Prop where
     T j { t with fail := t.fail + 1, discarded := t.discarded + d1, blockedCalls := t.blockedCalls + d2 }
   inval : ∀ j t, T j t → T j { t with valid := false }
 
-structure GI (T : Nat → Th → Prop) (s : BSt) : Prop where
+structure GI (T : Nat → Th → Prop) (c : Cfg) (s : BSt) : Prop where
   ui : UI s
   t : ∀ j, T j (s.th j)
+  cfg : s.cfg = c
 
-variable {u : UP} {T : Nat → Th → Prop}
+variable {u : UP} {T : Nat → Th → Prop} {c : Cfg}
 
-theorem GI.aux {s s' : BSt} (h : GI T s) (h1 : s'.cfg = s.cfg) (h2 : s'.ths = s.ths) (h3 : s'.actors = s.actors) : GI T s' :=
-  ⟨h.ui.aux h1 h2 h3, fun j => by rw [th_of_ths_eq h2]; exact h.t j⟩
+theorem GI.aux {s s' : BSt} (h : GI T c s) (h1 : s'.cfg = s.cfg) (h2 : s'.ths = s.ths) (h3 : s'.actors = s.actors) : GI T c s' :=
+  ⟨h.ui.aux h1 h2 h3, fun j => by rw [th_of_ths_eq h2]; exact h.t j, h1.trans h.cfg⟩
 
 /-- same contexts, invariant `UI` known -/
-theorem GI.ofUI {s s' : BSt} (h : GI T s) (hui : UI s') (h2 : s'.ths = s.ths) : GI T s' :=
-  ⟨hui, fun j => by rw [th_of_ths_eq h2]; exact h.t j⟩
+theorem GI.ofUI {s s' : BSt} (h : GI T c s) (hui : UI s') (h2 : s'.ths = s.ths) (h1 : s'.cfg = s.cfg := by rfl) : GI T c s' :=
+  ⟨hui, fun j => by rw [th_of_ths_eq h2]; exact h.t j, h1.trans h.cfg⟩
 
-theorem GI.setTh {s : BSt} (h : GI T s) (i : Nat) (f : Th → Th) (hui : TI (s.th i) → TI (f (s.th i)))
-    (hT : TI (s.th i) → T i (s.th i) → T i (f (s.th i))) : GI T (s.setTh i f) := by
-  refine ⟨h.ui.setTh i f hui, fun j => ?_⟩
+theorem GI.setTh {s : BSt} (h : GI T c s) (i : Nat) (f : Th → Th) (hui : TI (s.th i) → TI (f (s.th i)))
+    (hT : TI (s.th i) → T i (s.th i) → T i (f (s.th i))) : GI T c (s.setTh i f) := by
+  refine ⟨h.ui.setTh i f hui, fun j => ?_, h.cfg⟩
   rw [th_setTh]
   split
   · next hc => rw [hc.1]; exact hT (h.ui.th i) (h.t i)
   · exact h.t j
 
-theorem GI.ensureCtx (hc : TClosed u T) {s : BSt} (h : GI T s) (a : Nat) : GI T (ensureCtx s a).1 := by
-  refine ⟨h.ui.ensureCtx a, ?_⟩
+theorem GI.ensureCtx (hc : TClosed u T) {s : BSt} (h : GI T c s) (a : Nat) : GI T c (ensureCtx s a).1 := by
+  refine ⟨h.ui.ensureCtx a, ?_, by unfold Backend.ensureCtx; split <;> exact h.cfg⟩
   unfold Backend.ensureCtx
   split
   · exact h.t
@@ -54,8 +55,8 @@ theorem GI.ensureCtx (hc : TClosed u T) {s : BSt} (h : GI T s) (a : Nat) : GI T 
     · exact hc.fresh j _ _
     · exact h.t j
 
-theorem GI.tryEnqU (hc : TClosed u T) {s : BSt} (h : GI T s) (ci : Nat) (st : Stmt) (hsz : 0 < st.size) :
-    GI T (tryEnqU u s ci st).1 := by
+theorem GI.tryEnqU (hc : TClosed u T) {s : BSt} (h : GI T c s) (ci : Nat) (st : Stmt) (hsz : 0 < st.size) :
+    GI T c (tryEnqU u s ci st).1 := by
   unfold Backend.tryEnqU
   dsimp only
   split
@@ -63,13 +64,15 @@ theorem GI.tryEnqU (hc : TClosed u T) {s : BSt} (h : GI T s) (ci : Nat) (st : St
       (fun ht hT => hc.enq ci s.cfg _ { st with enqAt := s.now } ht hsz hT)
   · exact h.setTh ci _ (fun ht => ht.prepareWrite s.cfg u.qmax st.size) (fun ht hT => hc.prepW ci s.cfg _ st.size ht hT)
 
-theorem GI.afterEnq {s : BSt} (h : GI T s) (a : Nat) (st : Stmt) (cont : Nat) : GI T (afterEnq s a st cont).1 := by
-  refine h.ofUI (h.ui.afterEnq a st cont) ?_
-  unfold Backend.afterEnq
-  split <;> rfl
+theorem GI.afterEnq {s : BSt} (h : GI T c s) (a : Nat) (st : Stmt) (cont : Nat) : GI T c (afterEnq s a st cont).1 := by
+  refine h.ofUI (h.ui.afterEnq a st cont) ?_ ?_
+  · unfold Backend.afterEnq
+    split <;> rfl
+  · unfold Backend.afterEnq
+    split <;> rfl
 
-theorem GI.enqFlowU (hc : TClosed u T) {s : BSt} (h : GI T s) (a : Nat) (st : Stmt) (cont : Nat) (first initial : Bool)
-    (hsz : 0 < st.size) : GI T (enqFlowU u s a st cont first initial).1 := by
+theorem GI.enqFlowU (hc : TClosed u T) {s : BSt} (h : GI T c s) (a : Nat) (st : Stmt) (cont : Nat) (first initial : Bool)
+    (hsz : 0 < st.size) : GI T c (enqFlowU u s a st cont first initial).1 := by
   unfold Backend.enqFlowU
   have h1 := h.ensureCtx hc a
   generalize Backend.ensureCtx s a = r1 at h1
@@ -79,12 +82,12 @@ theorem GI.enqFlowU (hc : TClosed u T) {s : BSt} (h : GI T s) (a : Nat) (st : St
   generalize Backend.tryEnqU u s1 ci st = r2 at h2
   obtain ⟨s2, g⟩ := r2
   dsimp only at h2 ⊢
-  have hnone : ∀ x : BSt, GI T x → GI T (x.setActor a (fun y => { y with pend := .none })) :=
+  have hnone : ∀ x : BSt, GI T c x → GI T c (x.setActor a (fun y => { y with pend := .none })) :=
     fun x hx => hx.ofUI (hx.ui.setPend a _ (fun st hst => by simp [pendStmt] at hst)) rfl
-  have hretry : ∀ x : BSt, GI T x → GI T (x.setActor a (fun y => { y with pend := .retry st cont })) :=
+  have hretry : ∀ x : BSt, GI T c x → GI T c (x.setActor a (fun y => { y with pend := .retry st cont })) :=
     fun x hx => hx.ofUI (hx.ui.setPend a _ (fun st' hst => by
       simp only [pendStmt, Option.some.injEq] at hst; rw [← hst]; exact hsz)) rfl
-  have hb : ∀ (d1 d2 : Nat) (x : BSt), GI T x → GI T (if isLogKind st.kind then
+  have hb : ∀ (d1 d2 : Nat) (x : BSt), GI T c x → GI T c (if isLogKind st.kind then
       x.setTh ci (fun t => { t with fail := t.fail + 1, discarded := t.discarded + d1,
                                     blockedCalls := t.blockedCalls + d2 }) else x) := by
     intro d1 d2 x hx
@@ -105,8 +108,8 @@ theorem GI.enqFlowU (hc : TClosed u T) {s : BSt} (h : GI T s) (a : Nat) (st : St
       · exact hb _ _ _ h2
       · exact h2
 
-theorem GI.frontCallU (hc : TClosed u T) {s : BSt} (h : GI T s) (a lgi : Nat) (kind : Kind) (lvl len cont : Nat) (dyn : Bool)
-    (id : Nat) (named : Bool) : GI T (frontCallU u s a lgi kind lvl len cont dyn id named).1 := by
+theorem GI.frontCallU (hc : TClosed u T) {s : BSt} (h : GI T c s) (a lgi : Nat) (kind : Kind) (lvl len cont : Nat) (dyn : Bool)
+    (id : Nat) (named : Bool) : GI T c (frontCallU u s a lgi kind lvl len cont dyn id named).1 := by
   have hui := h.ui.frontCallU u a lgi kind lvl len cont dyn id named
   unfold Backend.frontCallU at hui ⊢
   dsimp only at hui ⊢
@@ -115,7 +118,7 @@ theorem GI.frontCallU (hc : TClosed u T) {s : BSt} (h : GI T s) (a lgi : Nat) (k
   · next hst => rw [if_pos hst] at hui; exact h.ofUI hui rfl
   · exact h.enqFlowU hc a _ cont true true hsz
 
-theorem GI.resumeU (hc : TClosed u T) {s : BSt} (h : GI T s) (a : Nat) : GI T (resumeU u s a).1 := by
+theorem GI.resumeU (hc : TClosed u T) {s : BSt} (h : GI T c s) (a : Nat) : GI T c (resumeU u s a).1 := by
   unfold Backend.resumeU
   split
   · next st cont hp =>
@@ -140,18 +143,18 @@ theorem GI.resumeU (hc : TClosed u T) {s : BSt} (h : GI T s) (a : Nat) : GI T (r
     · exact h
   · exact h
 
-theorem GI.noteCall {r : BSt × String} (h : GI T r.1) (a gid : Nat) : GI T (noteCall r a gid).1 :=
+theorem GI.noteCall {r : BSt × String} (h : GI T c r.1) (a gid : Nat) : GI T c (noteCall r a gid).1 :=
   h.ofUI (UI.noteCall h.ui a gid) rfl
 
-theorem GI.withLogger {s : BSt} (h : GI T s) (a gid : Nat) (k : Nat → BSt × String) (hk : ∀ lgi, GI T (k lgi).1) :
-    GI T (withLogger s a gid k).1 := by
+theorem GI.withLogger {s : BSt} (h : GI T c s) (a gid : Nat) (k : Nat → BSt × String) (hk : ∀ lgi, GI T c (k lgi).1) :
+    GI T c (withLogger s a gid k).1 := by
   unfold Backend.withLogger
   split
   · exact GI.noteCall (hk _) a gid
   · exact h
 
-theorem GI.frontU (hc : TClosed u T) {s : BSt} (h : GI T s) (f : UFOp) : GI T (applyFrontU u s f).1 := by
-  have hmisc : ∀ s' : BSt, s'.cfg = s.cfg → s'.ths = s.ths → s'.actors = s.actors → GI T s' :=
+theorem GI.frontU (hc : TClosed u T) {s : BSt} (h : GI T c s) (f : UFOp) : GI T c (applyFrontU u s f).1 := by
+  have hmisc : ∀ s' : BSt, s'.cfg = s.cfg → s'.ths = s.ths → s'.actors = s.actors → GI T c s' :=
     fun s' h1 h2 h3 => h.aux h1 h2 h3
   cases f with
   | shrink a want =>
@@ -179,7 +182,7 @@ theorem GI.frontU (hc : TClosed u T) {s : BSt} (h : GI T s) (f : UFOp) : GI T (a
       simp only [applyFrontU, applyFront]
       split
       · exact h
-      · have h1 : GI T (s.setActor a (fun x => { x with alive := false })) :=
+      · have h1 : GI T c (s.setActor a (fun x => { x with alive := false })) :=
           h.ofUI (h.ui.setActorMisc a _ (fun _ => rfl)) rfl
         split
         · exact (h1.setTh _ (fun t => { t with valid := false }) (fun ht => ht.same rfl rfl rfl rfl rfl rfl)
@@ -202,7 +205,7 @@ theorem GI.frontU (hc : TClosed u T) {s : BSt} (h : GI T s) (f : UFOp) : GI T (a
       simp only [applyFrontU]
       apply h.withLogger
       intro lgi
-      have h1 : GI T { s with nextId := s.nextId + 1 } := hmisc _ rfl rfl rfl
+      have h1 : GI T c { s with nextId := s.nextId + 1 } := hmisc _ rfl rfl rfl
       split
       · exact h1.frontCallU hc ..
       · exact h1
@@ -210,7 +213,7 @@ theorem GI.frontU (hc : TClosed u T) {s : BSt} (h : GI T s) (f : UFOp) : GI T (a
       simp only [applyFrontU]
       apply h.withLogger
       intro lgi
-      have h1 : GI T { s with nextId := s.nextId + 1 } := hmisc _ rfl rfl rfl
+      have h1 : GI T c { s with nextId := s.nextId + 1 } := hmisc _ rfl rfl rfl
       split
       · exact h1.frontCallU hc ..
       · exact h1
@@ -218,7 +221,7 @@ theorem GI.frontU (hc : TClosed u T) {s : BSt} (h : GI T s) (f : UFOp) : GI T (a
       simp only [applyFrontU]
       apply h.withLogger
       intro lgi
-      have h1 : GI T { s with nextId := s.nextId + 1 } := hmisc _ rfl rfl rfl
+      have h1 : GI T c { s with nextId := s.nextId + 1 } := hmisc _ rfl rfl rfl
       split
       · exact h1.frontCallU hc ..
       · exact h1
@@ -232,7 +235,7 @@ theorem GI.frontU (hc : TClosed u T) {s : BSt} (h : GI T s) (f : UFOp) : GI T (a
       simp only [applyFrontU]
       apply h.withLogger
       intro lgi
-      have h1 : GI T { s with nextFlag := s.nextFlag + 1 } := hmisc _ rfl rfl rfl
+      have h1 : GI T c { s with nextFlag := s.nextFlag + 1 } := hmisc _ rfl rfl rfl
       exact h1.frontCallU hc ..
     | removeBlocking a g =>
       simp only [applyFrontU]
@@ -240,7 +243,7 @@ theorem GI.frontU (hc : TClosed u T) {s : BSt} (h : GI T s) (f : UFOp) : GI T (a
       · exact h
       · apply h.withLogger
         intro lgi
-        have h1 : GI T (dropName { s with nextFlag := s.nextFlag + 1 } g) := hmisc _ rfl rfl rfl
+        have h1 : GI T c (dropName { s with nextFlag := s.nextFlag + 1 } g) := hmisc _ rfl rfl rfl
         exact h1.frontCallU hc ..
     | remove a g =>
       simp only [applyFrontU, applyFront]
@@ -275,8 +278,8 @@ theorem GI.frontU (hc : TClosed u T) {s : BSt} (h : GI T s) (f : UFOp) : GI T (a
     | query => exact h
 
 /-- the hook-site injection runner keeps `GI T` -/
-theorem GI.runInjU (hc : TClosed u T) (table : List (Nat × Nat × List UFOp)) (s : BSt) (site : Nat) (h : GI T s) :
-    GI T (runInjU u table s site) :=
-  runInjU_closed' (P := GI T) (u := u) (fun _ _ h h1 h2 h3 => h.aux h1 h2 h3) (fun _ f h => h.frontU hc f) table s site h
+theorem GI.runInjU (hc : TClosed u T) (table : List (Nat × Nat × List UFOp)) (s : BSt) (site : Nat) (h : GI T c s) :
+    GI T c (runInjU u table s site) :=
+  runInjU_closed' (P := GI T c) (u := u) (fun _ _ h h1 h2 h3 => h.aux h1 h2 h3) (fun _ f h => h.frontU hc f) table s site h
 
 end Backend.US
